@@ -490,7 +490,8 @@ class Ctx:
         self.shard, self.nshards = 0, 1   # thorough tier: this process's part of the work
 
     def time_left(self):
-        return self.budget_s - (time.time() - self.t0)
+        # the generators' budget starts when they start (not when the Lean build started)
+        return self.budget_s - (time.time() - getattr(self, 't_gen', self.t0))
 
     def count(self, key, n=1):
         self.dist[key] = self.dist.get(key, 0) + n
